@@ -211,6 +211,31 @@ FLAG_ORDER = ["keepsValues", "keepsDtype", "keepsClass", "unitSame", "unitByDisp
 # embedded in every replay, so a replay runs exactly what the harness ran)
 
 
+_BASELINE = {}
+
+
+def reset_default_registry():
+    """put the default registry's string cache, table and derived-symbol set back to what they were
+    when this module was first used (right after `import unyt`): a case must not depend on which
+    cases ran before it in the same process"""
+    from unyt.unit_registry import default_unit_registry as reg
+
+    if not _BASELINE:
+        _BASELINE["cache"] = dict(reg._unit_object_cache)
+        _BASELINE["lut"] = dict(reg.lut)
+        _BASELINE["derived"] = set(getattr(reg, "_derived_symbols", None) or ())
+        return
+    reg._unit_object_cache.clear()
+    reg._unit_object_cache.update(_BASELINE["cache"])
+    for k in [k for k in reg.lut if k not in _BASELINE["lut"]]:
+        del reg.lut[k]
+    reg.lut.update(_BASELINE["lut"])
+    if getattr(reg, "_derived_symbols", None) is not None:
+        reg._derived_symbols.clear()
+        reg._derived_symbols.update(_BASELINE["derived"])
+    reg._unit_system_id = None
+
+
 def clear_caches():
     """empty the process-wide lru caches of unyt (unit rules, EM check): a 'cold' start"""
     import unyt.array as ua
